@@ -334,3 +334,58 @@ def emit_many(cases, extra_args=(), threads=None, timeout=20):
         return run_bin(["--" + c["shell"], "-", "-"] + list(extra_args), stdin_text=c["usage"], timeout=timeout)
     with ThreadPoolExecutor(threads) as ex:
         return list(ex.map(one, cases))
+
+
+# ---------------------------------------------------------------------------------------------
+def replay(prop, path):
+    """./check <id> --replay <file>: re-observe the implementation on the input a VIOLATION line points to and say whether the
+    recorded observation still reproduces (exit 1) or not (exit 0).  The decision itself is the check's; this is the
+    implementation side only (real binary, real bash), so that a report can be looked at without re-running a tier."""
+    import hashlib
+    d = json.load(open(path))
+    pl = d.get("replay", {})
+    print("property   : %s" % d.get("property", prop))
+    print("reported   : %s" % d.get("what", ""))
+    print("signature  : %s" % json.dumps(d.get("signature", {}), sort_keys=True))
+    build()
+    usage = pl.get("usage")
+    if usage is None and "usage_bytes" in pl:
+        usage = bytes(pl["usage_bytes"]).decode("utf-8", "surrogateescape") if isinstance(pl["usage_bytes"], list) else pl["usage_bytes"]
+    if usage is None:
+        print("the replay file names no grammar; nothing to re-observe")
+        return 2
+    shell = pl.get("shell", "bash")
+    tmp = tempfile.mkdtemp(prefix="replay-", dir=os.path.join(WORK, "tlc"))
+    try:
+        src = os.path.join(tmp, "in.usage")
+        with open(src, "wb") as f:
+            f.write(usage.encode("utf-8", "surrogateescape"))
+        out = os.path.join(tmp, "out.script")
+        p = subprocess.run([BIN, "--" + shell, out, src], capture_output=True, timeout=120)
+        script = open(out, "rb").read() if os.path.exists(out) else b""
+        body = b"\n".join(l for l in script.split(b"\n") if b"generated by" not in l)
+        print("complgen   : exit %d, script %d bytes, digest %s" % (p.returncode, len(script), hashlib.sha256(body).hexdigest()[:16]))
+        if p.stderr:
+            print("stderr     : " + p.stderr.decode("utf-8", "replace").strip().replace("\n", "\n             ")[:1500])
+        same = None
+        if "words" in pl and "prefix" in pl and shell == "bash" and p.returncode == 0:
+            import bashdrv
+            q = bashdrv.run_script(script.decode("utf-8", "replace"), "_" + (usage.split()[0] if usage.split() else "cmd"),
+                                   [{"words": pl["words"], "prefix": pl["prefix"], "wb": pl.get("wb", "d")}])[0]
+            now = {"rc": q["rc"], "reply": sorted(q["reply"]), "calls": [(c["probe"], c["a1"], c["a2"]) for c in q["calls"]]}
+            print("bash now   : %s" % json.dumps(now))
+            if isinstance(pl.get("observed"), dict) and "reply" in pl["observed"]:
+                then = {"rc": pl["observed"].get("rc"), "reply": sorted(pl["observed"].get("reply", []))}
+                print("bash then  : %s" % json.dumps(then))
+                print("expected   : %s" % json.dumps(pl.get("expected", {})))
+                same = then["rc"] == now["rc"] and then["reply"] == now["reply"]
+        elif isinstance(pl.get("observed"), dict) and "exit" in pl["observed"]:
+            print("then       : exit %s" % pl["observed"]["exit"])
+            same = pl["observed"]["exit"] == p.returncode
+        if same is None:
+            print("(this kind of report has no single observation to compare; see the fields of the replay file)")
+            return 0
+        print("the recorded observation %s" % ("still reproduces" if same else "does not reproduce on the current tree"))
+        return 1 if same else 0
+    finally:
+        shutil.rmtree(tmp, ignore_errors=True)
